@@ -48,11 +48,43 @@ def toolname(k):
     return {"maxnews": "max", "maxi": "max", "maxnewsi": "max", "mgeraw": "mge", "vefraw": "vef"}.get(k, k)
 
 
+_FILES = None
+
+
+def files_cached():
+    global _FILES
+    if _FILES is None:
+        _FILES = base_files()
+    return _FILES
+
+
+def materialise(f):
+    """fault descriptor (fmt, kind, param, features) -> (opts, damaged bytes)"""
+    fmt, kind, param, _ = f
+    files = files_cached()
+    if kind == "size":
+        return [], C.body_lin(param, 7, 1)
+    opts, data, _pos = files[fmt]
+    if kind == "truncate":
+        return opts, data[:param]
+    if kind in ("header", "control", "control2"):
+        p, v = param
+        d = bytearray(data)
+        d[p] = v
+        return opts, bytes(d)
+    if kind == "append":
+        return opts, data + param
+    if kind == "short":
+        return opts, param
+    raise ValueError(kind)
+
+
 def gen(run):
+    """fault descriptors; the damaged bytes are built in the worker (materialise)"""
     quick = run.tier == "quick"
     alpha = ALPHA_Q if quick else list(range(256))
-    faults = []  # (fmt, opts, data, kind, features)
-    files = base_files()
+    faults = []  # (fmt, kind, param, features)
+    files = files_cached()
     for fmt, (opts, data, pos) in sorted(files.items()):
         n = len(data)
         # prefixes
@@ -62,7 +94,7 @@ def gen(run):
         else:
             cuts = range(0, n)
         for cut in cuts:
-            faults.append((fmt, opts, data[:cut], "truncate", [fmt, "truncated"]))
+            faults.append((fmt, "truncate", cut, [fmt, "truncated"]))
         run.states += len(cuts)
         run.transitions += len(cuts)
         # header / control bytes x alphabet
@@ -70,18 +102,20 @@ def gen(run):
             pp = list(pos.get(kind, []))
             if kind != "header" and quick and len(pp) > 40:
                 pp = pp[:20] + pp[-20:]
+            elif kind != "header" and len(pp) > 200:
+                full = len(pp)
+                pp = sorted(set(pp[:60] + pp[-60:] + pp[::7]))
+                run.caps.append(f"{fmt}: thorough tier corrupts {len(pp)} of {full} {kind} positions (first 60, last 60, every 7th), each with all 256 values")
             for p in pp:
                 for v in alpha:
                     if data[p] == v:
                         continue
-                    d = bytearray(data)
-                    d[p] = v
-                    faults.append((fmt, opts, bytes(d), kind, [fmt, "corrupt-" + kind.rstrip("2"), f"{fmt}@{p}" if kind == "header" else "ctl"]))
+                    faults.append((fmt, kind, (p, v), [fmt, "corrupt-" + kind.rstrip("2"), f"{fmt}@{p}" if kind == "header" else "ctl"]))
                 run.states += len(alpha)
                 run.transitions += len(alpha)
         # appended garbage
         for extra in (b"\x00", b"\xff", b"\x00\x00", b"\x01\x02\x03", b"\x80" * 3):
-            faults.append((fmt, opts, data + extra, "append", [fmt, "appended"]))
+            faults.append((fmt, "append", extra, [fmt, "appended"]))
             run.states += 1
             run.transitions += 1
     # all short byte strings
@@ -89,15 +123,14 @@ def gen(run):
     a2 = ALPHA_Q if quick else range(256)
     shorts += [bytes([a, b]) for a in a2 for b in a2]
     for fmt in ("hrs", "max", "maxnews", "maxi", "maxnewsi", "pix", "mge", "rat", "cm3", "vef"):
-        opts = files[fmt][0]
         for s in shorts:
-            faults.append((fmt, opts, s, "short", [fmt, "short-string"]))
+            faults.append((fmt, "short", s, [fmt, "short-string"]))
         run.states += len(shorts)
         run.transitions += len(shorts)
     # PIX: every size (non-square sizes are damaged files)
     for sz in range(0, 301 if quick else 2049):
         feats = ["pix", "size-sweep"] + (["pix-size-not-square"] if F.pix_expected(bytes(sz)) is None else [])
-        faults.append(("pix", [], C.body_lin(sz, 7, 1), "size", feats))
+        faults.append(("pix", "size", sz, feats))
     run.states += 301 if quick else 2049
     run.transitions += 301 if quick else 2049
     return faults
@@ -129,7 +162,9 @@ def judge(fmt, opts, data, scratch):
 
 def work(chunk):
     res = []
-    for fmt, opts, data, kind, feats in chunk:
+    for f in chunk:
+        fmt = f[0]
+        opts, data = materialise(f)
         sym, detail, oc = judge(fmt, opts, data, work.scratch)
         res.append((sym, detail, oc.status.split(":")[0] if oc.status != "ok" else ("ok" if oc.out is not None else "ok-removed")))
     return res
@@ -156,7 +191,7 @@ def refine_features(fmt, data, kind, feats, sym, base):
 
 def run(run):
     run.rule = ("faults = every prefix, every header/control byte x value alphabet, appended bytes and all short strings for a minimal valid file of "
-                "each format; distinct = distinct damaged byte strings; non-trivial = differs from the valid file")
+                "each format; distinct = distinct faults (format, kind, position/value); non-trivial = differs from the valid file")
     run.assumptions = ["an exception or non-zero exit escaping start() counts as 'reported'", "MAX reports by removing its output (documented False result)"]
     faults = gen(run)
     work.scratch = run.scratch_dir()
@@ -164,10 +199,13 @@ def run(run):
     i = 0
     for res in core.pmap(work, faults, chunk=24):
         for sym, detail, st in res:
-            fmt, opts, data, kind, feats = faults[i]
+            fmt, kind, param, feats = faults[i]
             i += 1
             run.evaluations += 1
-            keys.add(hash((fmt, data)))
+            keys.add(hash((fmt, kind, param)))
+            opts = data = None
+            if sym or i % 3001 == 1:
+                opts, data = materialise(faults[i - 1])
             run.count(f"outcome:{st}")
             run.count(f"faults:{kind}")
             if i % 3001 == 1:
